@@ -310,14 +310,22 @@ SDStepA(I, s) ==
 \*      (component-wise).  eps is taken below the comparison tolerance (eps -> 0), which also makes the article's two
 \*      formulations of the update coincide.  The step is rational when every component of vh_t is a rational square
 \*      (b2 = 0: vh_t = g_t^2; constant gradient: vh_t = g^2); otherwise the instance is not comparable (ok = FALSE).
-RSqrtOK(u) == \A i \in 1..Len(u) : u[i][1] > 0 /\ QIsSquare(u[i])
+RECURSIVE ISqrtB(_, _, _)
+ISqrtB(n, lo, hi) ==                     \* integer square root by bisection (46340^2 < 2^31)
+  IF lo >= hi THEN lo
+  ELSE IF ((lo + hi + 1) \div 2) * ((lo + hi + 1) \div 2) <= n THEN ISqrtB(n, (lo + hi + 1) \div 2, hi)
+  ELSE ISqrtB(n, lo, ((lo + hi + 1) \div 2) - 1)
+ISqrtF(n) == ISqrtB(n, 0, IF n < 46340 THEN n ELSE 46340)
+IsSq(n) == n >= 0 /\ ISqrtF(n) * ISqrtF(n) = n
+SSqrt(p) == <<ISqrtF(p[1]), ISqrtF(p[2])>>
+RSqrtOK(u) == \A i \in 1..Len(u) : u[i][1] > 0 /\ IsSq(u[i][1]) /\ IsSq(u[i][2])
 AdamStep(I, s) ==
   W(E(QGrad(I.P, s.x)), LAMBDA g :
   W(E(RLin(I.b1, s.m, SSub(QOne, I.b1), g)), LAMBDA m :
   W(E(RLin(I.b2, s.v, SSub(QOne, I.b2), RMul(g, g))), LAMBDA v :
   W(E(RScal(SInv(SSub(QOne, TauPow(I.b1, s.t + 1))), m)), LAMBDA mh :
   W(E(RScal(SInv(SSub(QOne, TauPow(I.b2, s.t + 1))), v)), LAMBDA vh :
-  W(E(IF RSqrtOK(vh) THEN [i \in 1..Len(g) |-> SDiv(mh[i], QSqrt(vh[i]))] ELSE RZero(Len(g))), LAMBDA up :
+  W(E(IF RSqrtOK(vh) THEN [i \in 1..Len(g) |-> SDiv(mh[i], SSqrt(vh[i]))] ELSE RZero(Len(g))), LAMBDA up :
     [s EXCEPT !.x = RSub(s.x, RScal(I.lr, up)), !.m = m, !.v = v, !.t = s.t + 1,
               !.d = RNeg(up), !.a = I.lr, !.ok = s.ok /\ RSqrtOK(vh)]))))))
 
@@ -334,8 +342,6 @@ StepA(I, s) ==
     [] I.solver = "sd"      -> SDStepA(I, s)
     [] I.solver = "adam"    -> AdamStep(I, s)
 \* "tol: tolerance that should be used for terminating the iteration": whatever quantity an implementation compares
-\* with tol > 0, at an exactly stationary point it vanishes - the iteration is over (projected steepest descent: when
-\* the projected step does not move)
-Converged(I, s) ==
-  IF I.solver = "sd" /\ I.box # <<>> THEN FALSE ELSE Stationary(I.P, s.x)
+\* with tol > 0, at an exactly stationary point it vanishes - the iteration is over
+Converged(I, s) == Stationary(I.P, s.x)
 =============================================================================
